@@ -74,7 +74,7 @@ theorem undecodable_rejected (p : Policy) (sps : StyleRules) (dec : Css.Decl)
   simp [Policy.declAccepted, h]
 
 example :
-    let p : Policy := { globalStyles := [(b!"color", [{ enum := [b!"red"] }])] }
+    let p : Policy := { initialized := true, globalStyles := [(b!"color", [{ enum := [b!"red"] }])] }
     p.sanitizeStyles b!"COLOR: \\72 ed; width: 1px; -webkit-color: RED ;color: blue; color: \\110000" b!"b" =
       b!"COLOR: \\72 ed; -webkit-color: RED" := by decide
 
